@@ -52,6 +52,7 @@ class AssembleAction : public Action {
 class SerialAssembleAction : public AssembleAction {
   public:
     using AssembleAction::AssembleAction;
+    virtual ~SerialAssembleAction();
 
   protected:
     virtual void onPause() override;
@@ -74,6 +75,9 @@ class SerialAssembleAction : public AssembleAction {
   private:
     Action *curr_action_ = nullptr;     //! 当前正在执行的动作
     ChildFinishFunc child_finish_func_; //! 上一个动用缓存的finish事件
+    event::Loop::RunId child_finish_run_id_ = 0;  //! runNext() id of the replayed finish event, for cancel
+
+    void cancelChildFinishReplay();
 };
 
 }
